@@ -1,7 +1,13 @@
 //verif:dest internal/server/handlers/zz_verif_c07f.go
 //verif:replace@C07f path/filepath.Glob = c07fGlob
+//verif:replace@C04g path/filepath.Glob = c07fGlob
+//verif:replace@C02g path/filepath.Glob = c07fGlob
 //verif:replace@C07f (*github.com/mimecast/dtail/internal/user/server.User).HasFilePermission = c07fPerm
+//verif:replace@C04g (*github.com/mimecast/dtail/internal/user/server.User).HasFilePermission = c07fPerm
+//verif:replace@C02g (*github.com/mimecast/dtail/internal/user/server.User).HasFilePermission = c07fPerm
 //verif:replace@C07f (*github.com/mimecast/dtail/internal/server/handlers.readCommand).read = c07fRead
+//verif:replace@C04g (*github.com/mimecast/dtail/internal/server/handlers.readCommand).read = c07fRead
+//verif:replace@C02g (*github.com/mimecast/dtail/internal/server/handlers.readCommand).read = c07fRead
 
 package handlers
 
@@ -19,6 +25,7 @@ import (
 )
 
 var c07fIDs map[string]string
+var c07fReads map[string]int
 
 // the file system below /var/log: two hosts' directories with the same file name
 func c07fGlob(pattern string) ([]string, error) {
@@ -33,6 +40,9 @@ func c07fGlob(pattern string) ([]string, error) {
 func c07fPerm(u *user.User, filePath, permissionType string) bool { return true }
 func c07fRead(r *readCommand, ctx context.Context, ltx lcontext.LContext, path, globID string, re regex.Regex) {
 	c07fIDs[path] = globID
+	if c07fReads != nil {
+		c07fReads[path]++
+	}
 }
 
 var c07fGlobs = []struct {
@@ -69,4 +79,30 @@ func VerifC07fGlobSpelling() {
 		verifrt.Assert(got == id, "a file's identifier is not the path component under the wildcard: sources cannot be told apart")
 	}
 	verifrt.Reach("checked")
+}
+
+// VerifC04gFollowGlob: a follow (tail) or cat command whose file argument is a
+// glob matching two files, through Write/handleCommand/readCommand.Start/
+// readGlob/readFiles: each matched file gets exactly one reader - none is
+// followed twice (its lines would be delivered twice), none is left out.
+func VerifC04gFollowGlob(tail int) {
+	dlog.VerifInstall(source.Server)
+	c07fIDs = map[string]string{}
+	c07fReads = map[string]int{}
+	g := c07fGlobs[verifrt.Choose("glob", len(c07fGlobs))]
+	h := VerifNewServerHandler(false, false, false, 4, 4)
+	mode := "cat"
+	if tail == 1 {
+		mode = "tail"
+	}
+	cmd := mode + " " + g.glob + " regex:noop "
+	h.Write([]byte("protocol 4.1 base64 " + base64.StdEncoding.EncodeToString([]byte(cmd)) + ";"))
+	verifrt.Sleep(12 * time.Second)
+	for path := range g.want {
+		verifrt.Assert(c07fReads[path] >= 1, "a file matched by the glob is not followed")
+		verifrt.Assert(c07fReads[path] <= 1, "a file matched by the glob is followed twice: its lines are delivered twice")
+	}
+	verifrt.Assert(len(c07fReads) == len(g.want), "a file the glob does not match is read")
+	c07fReads = nil
+	verifrt.Reach("each-once")
 }
